@@ -79,6 +79,10 @@ def gen_config(rng, names, allow_stop=True):
     r = rng.random()
     if r < 0.1:
         cfg["linesep"] = "\n"
+    if rng.random() < 0.3:
+        g = workload.random_group_config(rng, runner.RULES)
+        if g:
+            cfg.setdefault("rule", {})["group"] = g
     if rng.random() < 0.25:
         ind = workload.random_indent_config(rng)
         if ind:
